@@ -5,7 +5,7 @@ from scipy import sparse
 import kernels, tvlib
 import solverlib as sl
 
-GEN_SOURCES = ["skglm/penalties/separable.py"]
+GEN_SOURCES = ["skglm/penalties/separable.py", "skglm/utils/prox_funcs.py"]
 EXTRA_TARGETS = ["Gen/ProxFuncs.vo", "Gen/PenSeparable.vo"]
 TRUSTED_BASE = [
     "Coq 8.16.1 kernel (coqc); vm_compute only in correspondence files",
@@ -64,7 +64,7 @@ def oracle(tier, rng, deep=False):
         rg = np.array([(sl.doc_loss(dname, DP, y, z + h * np.eye(n)[i]) - sl.doc_loss(dname, DP, y, z - h * np.eye(n)[i])) / (2 * h) for i in range(n)])
         return X.T @ rg, th
     for _ in range(nrep):
-        kind = rng.choice(["L1", "L1_plus_L2", "WeightedL1", "MCPenalty", "group", "multitask"])
+        kind = rng.choice(["L1", "L1_plus_L2", "WeightedL1", "MCPenalty", "MCPenalty", "WeightedMCPenalty", "group", "multitask"])
         fi = rng.random() < 0.6
         try:
             if kind == "multitask":
@@ -108,9 +108,12 @@ def oracle(tier, rng, deep=False):
                     if not want_zero and not np.any(w != 0):
                         failures.append(dict(site="zero-below-alpha_max:GroupBCD", input=inp, observed=w.tolist()))
                 continue
-            dname = rng.choice(["Quadratic", "Logistic"] if kind != "MCPenalty" else ["Quadratic"])
+            dname = rng.choice(["Quadratic", "Logistic"] if kind not in ("MCPenalty", "WeightedMCPenalty") else ["Quadratic"])
             ctor, ykind, pgen = sl.DATAFITS[dname]
             X, y = sl.make_problem(rng, kind=ykind)
+            if kind in ("MCPenalty", "WeightedMCPenalty") and rng.random() < 0.6:
+                # unnormalised features: the coordinate step 1 / L_j may exceed gamma (the critical strength does not depend on it)
+                X = X * np.array([rng.choice([0.3, 0.4, 1.0, 2.0]) for _ in range(X.shape[1])])
             if dname == "Quadratic":
                 y = y + rng.choice([0.0, 3.0, -5.0])          # non-centred targets
             n, p = X.shape
@@ -119,6 +122,8 @@ def oracle(tier, rng, deep=False):
                 wts[0] = 1.0
             if kind == "WeightedL1" and dname != "Quadratic":
                 wts = np.where(wts == 0, 1.0, wts)              # unpenalised features can diverge on separable logistic data
+            if kind == "WeightedMCPenalty":
+                wts = np.array([rng.choice([0.5, 1.0, 2.0, 4.0]) for _ in range(p)])      # weights above gamma included
             unpen = (wts == 0) if kind == "WeightedL1" else None
             g0, th = null_grad(dname, {}, X, y, fi, unpen)
             if kind == "L1":
@@ -128,6 +133,8 @@ def oracle(tier, rng, deep=False):
                 mk = lambda a: sp.L1_plus_L2(a, rho)
             elif kind == "WeightedL1":
                 mk = lambda a: sp.WeightedL1(a, wts)
+            elif kind == "WeightedMCPenalty":
+                mk = lambda a: sp.WeightedMCPenalty(a, 3.0, wts)
             else:
                 mk = lambda a: sp.MCPenalty(a, 3.0)
             amax = float(cc(mk(1.0)).alpha_max(g0))
